@@ -428,7 +428,47 @@ def run_C16(ctx):
         samples=samples, exhaustive=not dl, oracle_checks=tot["checks"], runs=per_run)
     return dict(coverage=cov, assumptions=COMMON_ASSUME[:2] + ["64-bit Linux; interior pointers are checked up to MI_MAX_SLICE_OFFSET_COUNT slices behind the page start (the documented limit for huge blocks)"], violations=viol, infra=infra)
 
+def run_C20(ctx):
+    import subprocess
+    jobs = []
+    for v in ("rel", "dbg", "sec", "asan"):
+        b = ctx.build("h_opt", v)
+        jobs.append(dict(bin=b, args=["--prop", ctx.pid], env={"ASAN_OPTIONS": "detect_leaks=0:abort_on_error=1"}, tag=f"{v}/opt", timeout=900))
+    tot, samples, viol, infra, per_run, dl = agg_runs(ctx, jobs, parallel=4)
+    # exec mode: the real constructor path parses one variable per fresh process
+    b = ctx.build("h_opt", "rel")
+    def readback(env):
+        e = {k: v for k, v in os.environ.items() if not k.upper().startswith("MIMALLOC_")}
+        e.update(env)
+        r = subprocess.run([b, "--mode", "readback"], env=e, stdout=subprocess.PIPE, stderr=subprocess.DEVNULL, text=True, timeout=60)
+        return dict(l.split("=", 1) for l in r.stdout.splitlines() if "=" in l), r.returncode
+    base, rc = readback({})
+    execs = 0; exec_samples = []
+    if rc != 0 or not base:
+        infra.append("exec read-back of the option table failed")
+    else:
+        for name, dflt in base.items():
+            for val, want in ((("3MiB", "3072") if name in ("arena_reserve", "reserve_os_memory") else ("7", "7")), ("off", "0"), ("bogus!", dflt)):
+                if name.startswith("guarded_") or name == "verbose" or name == "show_stats": continue   # verbose/show_stats change the output itself
+                got, rc = readback({"MIMALLOC_" + name.upper(): val}); execs += 1
+                if rc != 0:
+                    viol.append(dict(key=f"{ctx.pid}:exec-crash:{name}", msg=f"process with MIMALLOC_{name.upper()}={val} exited with {rc}", replay="")); continue
+                if got.get(name) != want:
+                    viol.append(dict(key=f"{ctx.pid}:exec-option-value:{name}", msg=f"MIMALLOC_{name.upper()}={val}: option reads {got.get(name)}, expected {want}", replay=""))
+                others = [k for k in base if k != name and got.get(k) != base[k]]
+                if others:
+                    viol.append(dict(key=f"{ctx.pid}:exec-other-option:{name}", msg=f"MIMALLOC_{name.upper()}={val} changed other options: {others[:3]}", replay=""))
+                if len(exec_samples) < 2: exec_samples.append(f"exec: MIMALLOC_{name.upper()}={val} -> {name}={got.get(name)}")
+    cov = dict(evaluations=tot["nodes"] + execs, distinct_nontrivial=tot["nontrivial"],
+        rule="(a) every option index and legacy name x {20 boolean spellings, 18 integer forms incl. LONG_MAX+-1 and 30-digit numbers, 26 malformed strings, and for the two KiB-valued options 23 magnitudes x 9 suffix spellings x 6 unit spellings around every overflow edge of N*2^10/2^20/2^30}: one variable in a private environment, all options re-initialised through the real mi_option_init, ALL options read back and compared with an independent reference parser (exact value, or default for malformed input; strings that are proper substrings of the boolean word lists are outside the claim); API round trips set/get/enable/disable/set_default incl. out-of-range indices; (b) values and look-alike variable names of every length 0..300 and 511..8193, 70000; (c) _mi_snprintf for every destination size 0..80 x {7 flag sets x 7 widths x 6 length modifiers x 9 conversions x boundary arguments} and the multi-conversion formats of the sources, destination ending exactly at a PROT_NONE page with a canary in front: no write outside, terminator at the returned length, output identical to the untruncated one when it fits; _mi_strlcpy/_mi_strlcat for all destination sizes 0..40 x source lengths 0..80; (d) mi_stats_get_json(n, buf) for every n from 0 to length+64 with the same placement, heap-allocated result syntactically valid JSON, mi_stats_print_out / mi_options_print chunks terminated, > 16 KiB through the delayed output buffer; (e) fresh processes with one MIMALLOC_* variable each (constructor path). The asan variant runs all of it under AddressSanitizer. distinct_nontrivial = cases counted by the harness as changing a value / exceeding a buffer.",
+        samples=samples + exec_samples, exhaustive=not dl, oracle_checks=tot["checks"], exec_cases=execs, runs=per_run)
+    return dict(coverage=cov, assumptions=COMMON_ASSUME[:1] + ["boolean substrings (e.g. 'E' parses as true through strstr) and leading blanks accepted by strtol are outside the claim", "values longer than 64 characters are truncated by the option buffer: only safety is checked for them"], violations=viol, infra=infra)
+
 PROPS = {
+    "C20": dict(level="exploration", run=run_C20, replay=replay_file, engine="seq-explorer",
+        technique="exhaustive enumeration of option indices x value forms, buffer sizes x format grammar, and JSON buffer sizes on the compiled code (also under AddressSanitizer) against a reference parser and guard-page placed buffers",
+        text="All option/value forms of the grammar, all destination sizes 0..80 for every generated format and all JSON buffer sizes are enumerated; exhaustive over the stated finite domains.",
+        note="trusted: reference option parser in the harness, guard-page/ASan instrumentation"),
     "C16": dict(level="exploration", run=run_C16, replay=replay_file, engine="seq-explorer",
         technique="exhaustive enumeration of finite input domains of the compiled arithmetic (all sizes up to twice the medium limit, all slice counts, all block indices of real pages, all 16-bit divisors) with executable oracles",
         text="The whole relevant domain of each function is enumerated on the compiled code in release, debug and secure builds; exhaustive: true.",
